@@ -192,6 +192,13 @@ fn run_one(rng: &mut Rng, out: &mut Out) {
     let client_party = if peer_kind == 4 { Party::Orig(OriginalPeer::new(true, rng, zero_version)) } else { Party::Lib(Handshake::new(PeerType::Client)) };
     let server_party = if peer_kind == 3 { Party::Orig(OriginalPeer::new(false, rng, zero_version)) } else { Party::Lib(Handshake::new(PeerType::Server)) };
     let tlen = |rng: &mut Rng| match rng.below(6) {
+        // one side in 60 follows its handshake with so much data that a reader which takes
+        // everything available holds more than 65,535 (or 131,071) bytes at once
+        _ if rng.chance(1, 60) => match rng.below(4) {
+            0 => rng.usize(129_500, 132_700),
+            1 => rng.usize(190_000, 200_000),
+            _ => rng.usize(62_000, 67_100),
+        },
         0 => 0,
         1 => 1,
         2 => rng.usize(1, 40),
@@ -274,7 +281,7 @@ fn run_one(rng: &mut Rng, out: &mut Out) {
     let mut steps = 0;
     loop {
         steps += 1;
-        if steps > 200_000 {
+        if steps > 200_000 + tc + ts {
             out.violation("handshake-driver-did-not-terminate", witness(&log, &c, &s));
             return;
         }
@@ -328,6 +335,10 @@ fn run_one(rng: &mut Rng, out: &mut Out) {
         };
         if rng.chance(1, 50) {
             n = 0; // an empty delivery
+        }
+        // what follows a completed handshake goes to the application: piece sizes no longer matter
+        if dst.completed && avail > 8192 {
+            n = n.max(8192);
         }
         let n = n.min(avail);
         let before = dst.received;
@@ -420,7 +431,7 @@ impl Check for C05 {
         run_one(rng, out);
     }
     fn rule(&self) -> String {
-        "one handshake per case: library client <-> library server (3/5), library client <-> independent original-handshake server (1/5), independent original-handshake client <-> library server (1/5); a fifth of the original-handshake peers send a packet 1 that almost carries a valid digest (the same bit wrong in two 32-bit words of it); the original-handshake peer echoes packet 1 verbatim or fills in time2 with {0, 1, 0x12345678, 0xFFFFFFFF} as RTMP spec 5.2.4 describes (half each); four opening orders (client generates; both generate; client opens via process_bytes(&[]); server pre-generates via process_bytes(&[])); each side appends 0-4096 tagged trailing bytes right after its third packet; scheduler styles: byte-by-byte, everything available, random <= 4000, targeted (pieces ending exactly at, one before, one after stream offsets 1, 1537, 3073), mixed incl. empty deliveries, fixed read size from {512, 768, 1024, 1535, 1536, 1537, 3072, 3073}; half the runs with the library RNG, half with the seeded fill hook. distinct = (peer kind, opening, scheduler style, trailing-length classes, number of deliveries ending within 1 byte of a packet boundary).".to_string()
+        "one handshake per case: library client <-> library server (3/5), library client <-> independent original-handshake server (1/5), independent original-handshake client <-> library server (1/5); a fifth of the original-handshake peers send a packet 1 that almost carries a valid digest (the same bit wrong in two 32-bit words of it); the original-handshake peer echoes packet 1 verbatim or fills in time2 with {0, 1, 0x12345678, 0xFFFFFFFF} as RTMP spec 5.2.4 describes (half each); four opening orders (client generates; both generate; client opens via process_bytes(&[]); server pre-generates via process_bytes(&[])); each side appends 0-4096 (one side in 60: 62,000-67,100, 129,500-132,700 or 190,000-200,000) tagged trailing bytes right after its third packet; scheduler styles: byte-by-byte, everything available, random <= 4000, targeted (pieces ending exactly at, one before, one after stream offsets 1, 1537, 3073), mixed incl. empty deliveries, fixed read size from {512, 768, 1024, 1535, 1536, 1537, 3072, 3073}; half the runs with the library RNG, half with the seeded fill hook. distinct = (peer kind, opening, scheduler style, trailing-length classes, number of deliveries ending within 1 byte of a packet boundary).".to_string()
     }
     fn assumptions(&self) -> Vec<String> {
         vec![
